@@ -109,6 +109,8 @@ def render(sc, tmp):
         lines.append("working_dir = %s" % wd)
         if w.get("use_sockets"):
             lines.append("use_sockets = True")
+        elif w.get("explicit_false"):
+            lines.append("use_sockets = %s" % w["explicit_false"])
         if w.get("stdin_socket") is not None:
             lines.append("stdin_socket = s%d" % w["stdin_socket"])
         if w.get("copy_env"):
@@ -475,6 +477,10 @@ def strategy(always_restart=False):
                 w["socket_refs"] = sorted(set(draw(st.lists(
                     st.integers(0, len(socks) - 1), min_size=1,
                     max_size=2))))
+            elif draw(st.booleans()):
+                # "without use_sockets", said explicitly
+                w["explicit_false"] = draw(st.sampled_from(
+                    ["False", "false", "0", "no", "off"]))
             ws.append(w)
         return {
             "token": "vtok%d" % draw(st.integers(10 ** 6, 10 ** 7)),
